@@ -73,13 +73,13 @@ CHECKS = {
         "require_ops": ["lax.quotient", "lax.h.quotient", "lax.h.coequalizer"],
     },
     "C10": {
-        "quick": {"gen": [G("MC_C10", "MC_C10_quick.cfg")], "drive": [D("laxcat", 3000, only=["lax.compose", "lax.lax_compose", "lax.tensor_assign", "lax.append", "lax.roundtrip_lax", "lax.to_strict", "lax.dagger"]), D("glue", 3000, only=["lax.compose"])]},
-        "thorough": {"gen": [G("MC_C10", "MC_C10_thorough.cfg")], "drive": [D("laxcat", 50000, only=["lax.compose", "lax.lax_compose", "lax.tensor_assign", "lax.append", "lax.roundtrip_lax", "lax.to_strict", "lax.dagger"]), D("glue", 60000, only=["lax.compose"])]},
+        "quick": {"gen": [G("MC_C10", "MC_C10_quick.cfg"), G("MC_C10", "MC_C10_two.cfg")], "drive": [D("laxcat", 3000, only=["lax.compose", "lax.lax_compose", "lax.tensor_assign", "lax.append", "lax.roundtrip_lax", "lax.to_strict", "lax.dagger"]), D("glue", 3000, only=["lax.compose"])]},
+        "thorough": {"gen": [G("MC_C10", "MC_C10_thorough.cfg"), G("MC_C10", "MC_C10_two.cfg")], "drive": [D("laxcat", 50000, only=["lax.compose", "lax.lax_compose", "lax.tensor_assign", "lax.append", "lax.roundtrip_lax", "lax.to_strict", "lax.dagger"]), D("glue", 60000, only=["lax.compose"])]},
         "require_ops": ["lax.to_strict", "lax.from_strict", "lax.roundtrip_strict", "lax.roundtrip_lax", "lax.compose", "lax.lax_compose", "lax.tensor_assign", "lax.append", "lax.singleton"],
     },
     "C11": {
-        "quick": {"gen": [G("MC_Lax", "MC_C11_quick.cfg")], "drive": [D("lax", 3000)]},
-        "thorough": {"gen": [G("MC_Lax", "MC_C11_thorough.cfg")], "drive": [D("lax", 50000)]},
+        "quick": {"gen": [G("MC_Lax", "MC_C11_quick.cfg"), G("MC_Lax", "MC_C11_twoq.cfg")], "drive": [D("lax", 3000)]},
+        "thorough": {"gen": [G("MC_Lax", "MC_C11_thorough.cfg"), G("MC_Lax", "MC_C11_two.cfg")], "drive": [D("lax", 50000)]},
         "require_ops": ["lax.new_node", "lax.new_edge", "lax.new_operation", "lax.add_edge_source", "lax.add_edge_target", "lax.unify", "lax.delete_nodes",
                         "lax.delete_edges", "lax.map_nodes", "lax.serde_roundtrip", "lax.h.delete_nodes_witness"],
     },
